@@ -98,6 +98,26 @@ def constructed(rng):
     for q in range(1, 19):
         add(G.fI("u64", (1 << 64) - 1), G.fD(sg(rng, rng.randrange(M // 10 + 1, M + 1)), q))
         add(G.fI("i64", -(1 << 63)), G.fD(sg(rng, rng.randrange(M // 10 + 1, M + 1)), q))
+    # operands at the widths of the primitive types, divisors +-1, +-2, 3, 10 (narrow-type fast paths)
+    for c in G.type_boundary_coeffs():
+        for s in (0, 1, 9, 18):
+            for b in (1, -1, 2, -2, 3, 10, -10):
+                add(G.fD(c, s), G.fD(b, s))
+                add(G.fD(c, s), G.fD(b, rng.randrange(0, 19)))
+                add(G.fD(b, s), G.fD(c, s))
+        for ty, v in (("i64", -1), ("i8", -1), ("i128", -1), ("u8", 1), ("i32", 2)):
+            add(G.fD(c, 0), G.fI(ty, v))
+            if abs(c) < (1 << 63):
+                add(G.fI("i64", c), G.fD(-1, 0))
+                add(G.fI("i128", c), G.fD(-1, rng.randrange(0, 19)))
+    # divisor whose up-scaled value lies in the 39-digit band 10^38 ..= 2^127-1 (fits, but only just)
+    for _ in range(300):
+        q = rng.randrange(0, 18)
+        p = rng.randrange(q + 1, 19)
+        k = p - q
+        b = rng.randrange(P10[38 - k], M // P10[k] + 1)
+        a = rng.randrange(b * P10[k], M + 1) if rng.random() < 0.7 else G.coeff(rng)
+        add(G.fD(sg(rng, a), p), G.fD(sg(rng, b), q))
     for s in range(19):
         for t in range(19):
             x = rng.randrange(-M, M + 1)
